@@ -268,6 +268,77 @@ def rule_f6(F):
     return r
 
 
+F7_REVIEWED = {
+    "assign": "drops the old value of the assignment target, which stays registered in its frame and is re-initialised right after",
+    "drop_var": "removes the variable from its frame (remove_live_variable) before dropping it",
+}
+
+
+def rule_f7(F):
+    r = RuleResult("C03.F7", "who may drop: emit_drop is only applied to variables taken out of a frame (drains, return_value) or in the reviewed sites", floor=10)
+    for b in lowerer_bodies(F):
+        drops = [(bi, t) for bi, t in mir.calls(b) if hir.last(mir.callee(t)) == "emit_drop" and mir.callee(t).startswith("mir::lower::")]
+        if not drops:
+            continue
+        defs = mir.Defs(b)
+        for (bi, t) in drops:
+            a = t["args"][1] if len(t["args"]) > 1 else None
+            from_frame = False
+            if mir.is_place_op(a):
+                seen = set()
+                work = [a[1][0]]
+                while work and not from_frame:
+                    l = work.pop()
+                    if l in seen:
+                        continue
+                    seen.add(l)
+                    for d in defs.defs.get(l, []):
+                        if d[2] == "call":
+                            nm = hir.last(mir.callee_def(d[3]))
+                            if nm == "next":
+                                it = d[3]["args"][0]
+                                ch = mir.value_chain(b, defs, it[1][0]) if mir.is_place_op(it) else []
+                                srcs = []
+                                for c in ch:
+                                    t2 = b.blocks[c[0]]["term"]
+                                    for a2 in t2["args"][:1]:
+                                        if mir.is_place_op(a2):
+                                            srcs.append(mir.origin_key(b, defs, a2[1]))
+                                    if is_frame_op(t2, "pop"):
+                                        from_frame = True
+                                if any("stack_slots" in x for x in srcs):
+                                    from_frame = True
+                                # iterating a local that holds a popped frame
+                                for c in ch:
+                                    t2 = b.blocks[c[0]]["term"]
+                                    for a2 in t2["args"][:1]:
+                                        if mir.is_place_op(a2):
+                                            for pb_, pt_ in mir.calls(b):
+                                                if is_frame_op(pt_, "pop") and deps_chain_has(b, defs, a2[1][0], pb_):
+                                                    from_frame = True
+                            for a2 in d[3]["args"]:
+                                if mir.is_place_op(a2):
+                                    work.append(a2[1][0])
+                        elif d[2] == "assign":
+                            rv = d[3]["rv"]
+                            for k in ("o",):
+                                if k in rv and mir.is_place_op(rv[k]):
+                                    work.append(rv[k][1][0])
+                            for o in rv.get("ops", []):
+                                if mir.is_place_op(o):
+                                    work.append(o[1][0])
+                            if "p" in rv:
+                                work.append(rv["p"][0])
+            fn = hir.last(b.path)
+            key = "%s emit_drop #%d" % (fn, [x[0] for x in drops].index(bi))
+            r.inst(key, {"fn": b.path, "line": t["line"], "variable_comes_from_a_frame": from_frame, "reviewed": F7_REVIEWED.get(fn)})
+            if from_frame or fn in F7_REVIEWED:
+                continue
+            r.bad(b.path, "manual drop #%d" % [x[0] for x in drops].index(bi), relfile(b.file), t["line"],
+                  "a variable is dropped by hand without ever being registered in a frame: early exits (return / accept / reject / ? inside the region) only release what is in the frames, so its value leaks on those paths")
+    return r
+
+
 def rules(ctx):
     F = ctx["F"]
-    return [rule_f1(F), rule_f2(F), rule_f3(F), rule_f4(F), rule_f5(F), rule_f6(F)]
+    return [rule_f1(F), rule_f2(F), rule_f3(F), rule_f4(F), rule_f5(F), rule_f6(F), rule_f7(F)]
